@@ -28,13 +28,14 @@ VARIABLES l,        \* next event
 tvars == <<l, live, kids, cs, cfgKids, recent, expect, pend, stopping>>
 
 ToSet(s) == {s[i] : i \in 1..Len(s)}
-NodeOfKey(k) == IF k \in {"R-C1", "G-C1", "P-C1"} THEN "C1" ELSE "C2"
+NodeOfKey(k) == IF k \in {"R-C1", "G-C1", "P-C1"} THEN "C1" ELSE IF k = "R-CZ" THEN "CZ" ELSE IF k = "R-CY" THEN "CY" ELSE "C2"
 KidOf(c) == IF c = "C1" THEN "K1" ELSE "K2"
 OwnerOf(n) == IF n \in {"C1", "K1"} THEN "C1" ELSE IF n \in {"C2", "K2"} THEN "C2" ELSE "none"
 Other(c) == IF c = "C1" THEN "C2" ELSE "C1"
 \* the node id an origin class stands for, relative to the written node
 Resolve(o, n) == IF o = "self" THEN OwnerOf(n) ELSE IF o = "peer" THEN Other(OwnerOf(n)) ELSE o
-AllKeys == {"R-C1", "G-C1", "P-C1", "R-C2", "G-C2", "P-C2"}
+\* R-CZ / R-CY: two more nodes of the managed type that the driver creates right before it stops the manager
+AllKeys == {"R-C1", "G-C1", "P-C1", "R-C2", "G-C2", "P-C2", "R-CZ", "R-CY"}
 St(k) == cs[k]
 
 TraceInit ==
